@@ -6,6 +6,13 @@ PROP = 'C13'
 IMPORTS = 'Model.Time Corr.C13'
 KINDS = ('PASS', 'COMPILE', 'DECOMP')
 
+def eval_robust(tag, imports, ty, cases, shard):
+    """coq_eval_cases; shards that die (per-shard timeout on a loaded machine) are re-run once in smaller shards"""
+    mism, errs = coq_eval_cases(tag, imports, ty, cases, shard=shard)
+    if errs and not mism:
+        mism, errs = coq_eval_cases(tag + 'r', imports, ty, cases, shard=max(5, shard // 6))
+    return mism, errs
+
 def run_harness(v, args, seed):
     rc, out = sh([harness_bin('c13')] + [str(a) for a in args], timeout=1500, env={'VERIF_SEED': str(seed)})
     lines = [l for l in out.splitlines() if '\t' in l]
@@ -39,7 +46,7 @@ def main(argv):
         for f in corpus_src: lines += run_harness(v, ['text', f], seed)
         for f in corpus_times: lines += run_harness(v, ['times', f], seed)
         if not replay:
-            n = {'quick': (1500, 1500, 2500), 'thorough': (20000, 20000, 40000)}[tier if tier in ('quick', 'thorough') else 'quick']
+            n = {'quick': (1500, 1500, 2500), 'thorough': (10000, 10000, 20000)}[tier if tier in ('quick', 'thorough') else 'quick']
             lines += run_harness(v, ['pass', n[0]], seed) + run_harness(v, ['compile', n[1]], seed) + run_harness(v, ['decomp', n[2]], seed)
         for l in lines:
             parts = l.split('\t')
@@ -77,9 +84,9 @@ def main(argv):
         rp.update(replay_fields('DECOMP' if src.startswith('times=') else 'COMPILE', src))
         v.violation('implementation-level oracle: ' + what, rp)
 
-    shard = 300 if tier == 'quick' else 1500
+    shard = 300 if tier == 'quick' else 400
     if v.corr_ok and cases:
-        mism, errs = coq_eval_cases(PROP, IMPORTS, 'c13case', cases, shard=shard)
+        mism, errs = eval_robust(PROP, IMPORTS, 'c13case', cases, shard)
         v.obligation('correspondence: model = implementation on %d cases (vm_compute inside Coq)' % len(cases), not mism and not errs,
                      ('%d mismatches; ' % len(mism)) + '; '.join(errs)[:600] if (mism or errs) else '')
         shown = set()
